@@ -36,6 +36,54 @@ def c02_nil_first_item(f, k):
 CLASSIFIERS["c02_nil_first_item"] = c02_nil_first_item
 
 
+def c02_simple_content(f, k):
+    """D38: only the dedicated simpleContent stream, and only 'text left as str'."""
+    inp = f.get("input") or {}
+    return inp.get("stream") == "simple-content" and f.get("kind") == "untranslated-text"
+
+
+CLASSIFIERS["c02_simple_content"] = c02_simple_content
+
+
+SC_SCHEMA = ('<xsd:complexType name="Money"><xsd:simpleContent><xsd:extension base="xsd:decimal"><xsd:attribute '
+             'name="currency" type="xsd:string"/><xsd:attribute name="n" type="xsd:int"/></xsd:extension>'
+             '</xsd:simpleContent></xsd:complexType><xsd:element name="f"><xsd:complexType><xsd:sequence/>'
+             '</xsd:complexType></xsd:element><xsd:element name="fResponse"><xsd:complexType><xsd:sequence>'
+             '<xsd:element name="r" type="x:Money"/><xsd:element name="rs" type="x:Money" minOccurs="0" '
+             'maxOccurs="unbounded"/><xsd:element name="k" type="xsd:int"/></xsd:sequence></xsd:complexType>'
+             '</xsd:element>')
+
+
+def simple_content_reply():
+    import decimal
+    client = wsdlkit.client(wsdlkit.wsdl_doc(SC_SCHEMA, "f", "fResponse"))
+    data = ('<e:Envelope xmlns:e="%s"><e:Body><fResponse xmlns="%s"><r currency="EUR" n="3">1.50</r><rs>2</rs>'
+            '<rs n="1">3</rs><k>5</k></fResponse></e:Body></e:Envelope>' % (xmlread.ENV11, wsdlkit.TNS)).encode()
+    r = client.service.f(__inject={"reply": data})
+    shape_ok = (str(r.r._currency) == "EUR" and r.r._n == 3 and type(r.r._n) is int and r.k == 5 and len(r.rs) == 2
+                and r.rs[1]._n == 1)
+    values = [r.r.value, r.rs[0], r.rs[1].value]
+    typed = all(isinstance(v, decimal.Decimal) for v in values)
+    return shape_ok, typed, [repr(v) for v in values]
+
+
+def simple_content(ctx):
+    """Separate stream: a simpleContent extension of xsd:decimal with attributes (known finding D38)."""
+    meta = {"stream": "simple-content"}
+    ctx.case(common.canon(meta), True)
+    try:
+        shape_ok, typed, values = simple_content_reply()
+    except Exception as e:
+        ctx.fail("decoding a simpleContent reply raised", meta, "%s: %s" % (type(e).__name__, e), "values + attributes")
+        return
+    if not shape_ok:
+        ctx.fail("attributes / structure of a simpleContent reply are wrong", meta, values, "attributes typed, lists kept",
+                 kind="shape")
+    if not typed:
+        ctx.fail("the text of a simpleContent element is not translated to its base type", meta, values,
+                 "Decimal values", kind="untranslated-text")
+
+
 def presentations(ident, op, case, n):
     out = [("plain", IF.plain_presentation(random.Random(0)))]
     for k in range(n):
@@ -104,6 +152,7 @@ def run(ctx):
         ctx.compare("decode-model-vs-suds", meta, got, model)
         ctx.compare("decode-model-vs-reference", meta, exp, model)
     nil_items(ctx)
+    simple_content(ctx)
     if metas:
         ctx.sample({"input": metas[0][0], "decoded": metas[0][1]})
 
@@ -170,6 +219,9 @@ def witness(ctx, k):
             return not (type(r).__name__ == "Q" and r.b == 2)
         except Exception:
             return True
+    if k.get("classifier") == "c02_simple_content":
+        shape_ok, typed, values = simple_content_reply()
+        return not typed
     if k.get("classifier") != "c02_nil_first_item":
         return None
     schema = NIL_SCHEMA
